@@ -666,6 +666,17 @@ impl<'a> Gen<'a> {
                 Stmt::Let(name, Box::new(Stmt::Expr(f)))
             }
             4 => {
+                if self.tape.chance(1, 3) {
+                    return self.user_iterator(name, depth);
+                }
+                // a manual pull from a visible iterator: only the flag is specified once it is exhausted
+                let its = self.vars_of(|t| matches!(t, Ty::Fun(ps, r) if ps.is_empty() && matches!(&**r, Ty::Tup(ts) if ts.len() == 2 && ts[0] == Ty::Bool)));
+                if !its.is_empty() && self.tape.chance(1, 3) {
+                    let it = its[self.tape.below(its.len())].clone();
+                    self.label("manual pull");
+                    self.declare(&name, Ty::Bool);
+                    return Stmt::Let(name, Box::new(Stmt::Expr(Expr::TupleAt(Box::new(Expr::Call(Box::new(Expr::Var(it.name)), vec![])), 0))));
+                }
                 let elem = if self.tape.bool() { Ty::Int } else { Ty::Str };
                 let it = self.iter_expr(&elem, depth.saturating_sub(1));
                 self.declare(&name, Ty::iter_of(elem));
@@ -685,6 +696,50 @@ impl<'a> Gen<'a> {
                 Stmt::Let(name, Box::new(Stmt::Expr(e)))
             }
         }
+    }
+
+    /// `name := (() -> (bool, int) { val := *i; if val < n { i += 1; return (true, f(val)); } return (false, filler); })`
+    /// over a fresh counter cell: a user-written stateful iterator whose body declares locals
+    /// (with names from the shared pool) and whose exhausted filler is an explicit value
+    fn user_iterator(&mut self, name: String, depth: usize) -> Stmt {
+        self.label("user-written iterator");
+        let cell = self.fresh_name("k");
+        let n = self.tape.range(0, 4);
+        let local = NAMES[self.tape.below(4)].to_string();
+        let filler = self.tape.range(-9, 9);
+        // body of the iterator closure
+        self.scopes.push(vec![]);
+        self.declare(&cell, Ty::cell(Ty::Int));
+        self.scopes.push(vec![]);
+        self.declare(&local, Ty::Int);
+        let saved_ret = self.fn_ret.replace(Ty::Tup(vec![Ty::Bool, Ty::Int]));
+        let saved_loop = std::mem::replace(&mut self.in_loop, false);
+        let produced = self.expr(&Ty::Int, depth.min(2));
+        self.fn_ret = saved_ret;
+        self.in_loop = saved_loop;
+        self.scopes.pop();
+        self.scopes.pop();
+        let body = vec![
+            Stmt::Let(local.clone(), Box::new(Stmt::Expr(Expr::Deref(Box::new(Expr::Var(cell.clone())))))),
+            Stmt::If(
+                Expr::Bin("<", Box::new(Expr::Var(local.clone())), Box::new(Expr::Int(n))),
+                Box::new(Stmt::Block(vec![
+                    Stmt::Expr(Expr::Assign("+=", Box::new(Expr::Var(cell.clone())), Box::new(Expr::Int(1)))),
+                    Stmt::Return(Some(Box::new(Stmt::Expr(Expr::Tuple(vec![Expr::Bool(true), produced]))))),
+                ])),
+                None,
+            ),
+            Stmt::Return(Some(Box::new(Stmt::Expr(Expr::Tuple(vec![Expr::Bool(false), Expr::Int(filler)]))))),
+        ];
+        let it_ty = Ty::iter_of(Ty::Int);
+        let closure = Expr::Lambda(vec![], Ty::Tup(vec![Ty::Bool, Ty::Int]), body);
+        // the counter cell is created in a block whose value is the closure
+        let block = Stmt::Block(vec![
+            Stmt::Let(cell, Box::new(Stmt::Expr(Expr::MutNew(Ty::Int, Box::new(Expr::Int(0)))))),
+            Stmt::Expr(closure),
+        ]);
+        self.declare(&name, it_ty);
+        Stmt::Let(name, Box::new(block))
     }
 
     fn fn_decl(&mut self, depth: usize) -> Stmt {
@@ -710,8 +765,13 @@ impl<'a> Gen<'a> {
             self.in_loop = saved_loop;
             self.scopes.pop();
             let body = vec![
+                // recursion depth is bounded whatever the argument (the result may double per level)
                 Stmt::If(
-                    Expr::Bin("<=", Box::new(Expr::Var("n".into())), Box::new(Expr::Int(0))),
+                    Expr::Bin(
+                        "||",
+                        Box::new(Expr::Bin("<=", Box::new(Expr::Var("n".into())), Box::new(Expr::Int(0)))),
+                        Box::new(Expr::Bin(">", Box::new(Expr::Var("n".into())), Box::new(Expr::Int(6)))),
+                    ),
                     Box::new(Stmt::Block(vec![Stmt::Return(Some(Box::new(Stmt::Expr(base))))])),
                     None,
                 ),
@@ -721,12 +781,23 @@ impl<'a> Gen<'a> {
             self.declare(&name, fty);
             return Stmt::FnDecl(name, params, r, body);
         }
-        let params: Vec<(String, Ty)> = (0..self.tape.below(3))
+        let own_name_param = self.tape.chance(self.p.scoping.min(4), 24);
+        let params: Vec<(String, Ty)> = (0..self.tape.below(3) + own_name_param as usize)
             .map(|i| {
-                let n = if self.tape.chance(self.p.scoping.min(6), 10) { NAMES[self.tape.below(4)].to_string() } else { format!("q{i}") };
+                let n = if i == 0 && own_name_param {
+                    // a parameter spelled like the function itself: the parameter wins inside the body
+                    name.clone()
+                } else if self.tape.chance(self.p.scoping.min(6), 10) {
+                    NAMES[self.tape.below(4)].to_string()
+                } else {
+                    format!("q{i}")
+                };
                 (n, self.gen_ty(1))
             })
             .collect();
+        if own_name_param {
+            self.label("parameter named like its function");
+        }
         // parameter names must be distinct
         let mut seen: Vec<String> = vec![];
         let params: Vec<(String, Ty)> = params
@@ -751,8 +822,35 @@ impl<'a> Gen<'a> {
         let decl = Stmt::Let(counter.clone(), Box::new(Stmt::Expr(Expr::MutNew(Ty::Int, Box::new(Expr::Int(0))))));
         let inc = Stmt::Expr(Expr::Assign("+=", Box::new(Expr::Var(counter.clone())), Box::new(Expr::Int(1))));
         let cur = Expr::Deref(Box::new(Expr::Var(counter.clone())));
-        let kind = self.tape.below(4);
+        let kind = self.tape.below(5);
         let s = match kind {
+            4 => {
+                // loop { k += 1; body; if *k < bound { continue; } body; break; }  (runs `bound` times, ends in a bare break)
+                self.label("loop ending in break");
+                self.scopes.push(vec![]);
+                // safety exit so that generated `continue`s cannot make the loop endless
+                let guard = Stmt::If(Expr::Bin(">", Box::new(cur.clone()), Box::new(Expr::Int(bound + 3))), Box::new(Stmt::Block(vec![Stmt::Break])), None);
+                let mut body = vec![inc, guard];
+                for _ in 0..self.tape.below(2) {
+                    if let Some(s) = self.stmt(depth.saturating_sub(1)) {
+                        body.push(s);
+                    }
+                }
+                if self.tape.bool() {
+                    body.push(Stmt::If(Expr::Bin("<", Box::new(cur), Box::new(Expr::Int(bound))), Box::new(Stmt::Block(vec![Stmt::Continue])), None));
+                } else {
+                    let c = self.expr(&Ty::Bool, depth.saturating_sub(1));
+                    body.push(Stmt::If(c, Box::new(Stmt::Block(vec![Stmt::Break])), None));
+                }
+                for _ in 0..self.tape.below(2) {
+                    if let Some(s) = self.stmt(depth.saturating_sub(1)) {
+                        body.push(s);
+                    }
+                }
+                body.push(Stmt::Break);
+                self.scopes.pop();
+                Stmt::Loop(Box::new(Stmt::Block(body)))
+            }
             0 => {
                 // loop { k += 1; if *k > bound { break; } body }
                 self.label("loop");
@@ -958,9 +1056,15 @@ impl<'a> Gen<'a> {
                 // if-set on a union-typed scalar
                 self.label("if-set");
                 let (ta, tb) = (self.gen_scalar_ty(), self.gen_scalar_ty());
-                let u = ta.clone().or(tb);
+                let u = ta.clone().or(tb.clone());
                 let e = self.expr(&u, depth.saturating_sub(1));
                 let v = self.name_for_decl();
+                // the tested type: one member, the whole union, or any (always matches)
+                let ta = match self.tape.weighted(&[3, 2, 1]) {
+                    0 => ta,
+                    1 => u.clone(),
+                    _ => Ty::Any,
+                };
                 self.scopes.push(vec![]);
                 self.declare(&v, ta.clone());
                 let a = self.block(depth.saturating_sub(1), 2, None);
